@@ -12,8 +12,12 @@ F = 'librfn/messageq.c'
 
 # (name, file, old, new, which checks are expected to see it)
 MUTANTS = [
-    ('revert-d97db7e-signed-cast', F, 'int num_free = (signed char) atomic_fetch_sub(&mq->num_free, 1);',
-     'int num_free = atomic_fetch_sub(&mq->num_free, 1);', ['C04']),
+    ('revert:6099fe4', None, None, None, ['C04']),          # D12: signed fetch_sub protocol, wraps with > 128 nested failing claims
+    ('claim-num_free-cas-replaced-by-store', F, '	} while (!atomic_compare_exchange_weak(&mq->num_free, &num_free,\n					       num_free - 1));',
+     '	} while (0);\n	atomic_store(&mq->num_free, num_free - 1);', ['C04']),
+    ('claim-zero-check-after-decrement', F, '		if (0 == num_free)\n			return NULL;', '		if (1 == num_free)\n			return NULL;', ['C10', 'C04']),
+    ('claim-no-zero-check-on-retry', F, '	unsigned char num_free = atomic_load(&mq->num_free);\n	do {\n		if (0 == num_free)\n			return NULL;\n	} while',
+     '	unsigned char num_free = atomic_load(&mq->num_free);\n	if (0 == num_free)\n		return NULL;\n	do {\n	} while', ['C04']),
     ('claim-wrap-at-queue_len', F, 'newsendp = (sendp >= (mq->queue_len-1) ? 0 : sendp+1);',
      'newsendp = (sendp >= (mq->queue_len) ? 0 : sendp+1);', ['C10', 'C04']),
     ('receive-wrap-at-queue_len', F, '(receivep >= (unsigned int)(mq->queue_len - 1) ? 0 : receivep + 1);',
@@ -22,13 +26,11 @@ MUTANTS = [
     ('send-bit-from-rounded-offset', F, 'unsigned int sendp = offset / mq->msg_len;', 'unsigned int sendp = (offset + 1) / mq->msg_len;', ['C10']),
     ('receive-does-not-advance', F, '	mq->receivep =\n	    (receivep >= (unsigned int)(mq->queue_len - 1) ? 0 : receivep + 1);', '	(void)0;', ['C10', 'C04']),
     ('release-does-not-increment', F, '	atomic_fetch_add(&mq->num_free, 1);\n}', '	(void)mq;\n}', ['C10', 'C04']),
-    ('failing-claim-no-reincrement', F, '		atomic_fetch_add(&mq->num_free, 1);\n		return NULL;', '		return NULL;', ['C10', 'C04']),
     ('init-queue_len-includes-slack', F, '	mq->queue_len = base_len / msg_len;\n	atomic_store(&mq->num_free, base_len / msg_len);',
      '	mq->queue_len = (base_len + msg_len - 1) / msg_len;\n	atomic_store(&mq->num_free, (base_len + msg_len - 1) / msg_len);', ['C10']),
     ('init-num_free-one-short', F, 'atomic_store(&mq->num_free, base_len / msg_len);', 'atomic_store(&mq->num_free, base_len / msg_len - 1);', ['C10']),
     ('claim-cas-replaced-by-store', F, '	} while(!atomic_compare_exchange_weak(&mq->sendp, &sendp, newsendp));',
      '	} while(0);\n	atomic_store(&mq->sendp, newsendp);', ['C04']),
-    ('claim-le-becomes-lt', F, 'if (num_free <= 0) {', 'if (num_free < 0) {', ['C10', 'C04']),
     ('receive-tests-without-clearing', F, 'unsigned int full_flags = atomic_fetch_and(\n			&mq->full_flags, ~(1 << receivep));',
      'unsigned int full_flags = atomic_fetch_and(\n			&mq->full_flags, ~0u);', ['C10', 'C04']),
     ('static-init-num_free-wrong', 'include/librfn/messageq.h', 'ATOMIC_VAR_INIT(((base_len) / (msg_len))), \\', 'ATOMIC_VAR_INIT(((base_len) / (msg_len)) - 1), \\', ['C10']),
@@ -65,11 +67,18 @@ def main():
         for (name, f, old, new, expect) in MUTANTS:
             if only and only != name:
                 continue
-            p = os.path.join(wt, f)
-            src = open(p).read()
-            if src.count(old) != 1:
+            if name.startswith('revert:'):
+                r = sh(['git', '-C', wt, 'revert', '--no-commit', name.split(':')[1]])
+                if r.returncode:
+                    print(f'{name:36s} REVERT FAILED {r.stderr[-200:]}'); missed += 1; continue
+                p, src = None, None
+            else:
+                p = os.path.join(wt, f)
+                src = open(p).read()
+            if src is not None and src.count(old) != 1:
                 print(f'{name:36s} PATTERN NOT FOUND ({src.count(old)} matches)'); missed += 1; continue
-            open(p, 'w').write(src.replace(old, new))
+            if src is not None:
+                open(p, 'w').write(src.replace(old, new))
             try:
                 for pid in pids:
                     if not os.path.exists(os.path.join(HERE, 'props', pid + '.py')):
@@ -92,14 +101,17 @@ def main():
                         rp = concrete[0].split('replay=')[1].split()[0]
                         try:
                             j = json.load(open(rp))
-                            detail = ' ' + (' '.join(j.get('ops', [])[:12]) or ('cfg ' + j.get('cfg', '') + ' | ' + ' '.join(j.get('schedule', []))))[:110]
+                            detail = ' ' + (' '.join(j.get('ops', [])[:12]) or (('nest ' + j['nest']) if 'nest' in j else ('cfg ' + j.get('cfg', '') + ' | ' + ' '.join(j.get('schedule', [])))))[:110]
                         except Exception:
                             pass
                     print(f'{name:36s} {pid} rc={r.returncode} {verdict:18s} [{exp}]{detail}', flush=True)
                     if r.returncode == 2:
                         print(r.stderr[-600:])
             finally:
-                open(p, 'w').write(src)
+                if src is not None:
+                    open(p, 'w').write(src)
+                else:
+                    sh(['git', '-C', wt, 'reset', '--hard', '-q'])
     finally:
         sh(['git', '-C', REPO, 'worktree', 'remove', '--force', wt])
         shutil.rmtree(wt, ignore_errors=True)
